@@ -59,4 +59,6 @@ def same(a, b):
     import math
     if isinstance(a, float) and isinstance(b, float) and math.isnan(a) and math.isnan(b):
         return True
+    if isinstance(a, (list, dict, set)) or hasattr(a, '__dict__'):
+        return a is b
     return a == b
